@@ -20,7 +20,7 @@ import (
 	"github.com/dolthub/dolt/go/zzverif/vsql"
 )
 
-const c33Rule = "rapid-generated histories of 2..6 commits (0..5 working-set operations each: CREATE/DROP/RENAME TABLE over a pool of 3 names, ADD (FIRST/AFTER/last, with/without DEFAULT)/DROP/RENAME/MODIFY COLUMN over a pool of 5 column names, INSERT/UPDATE/DELETE over primary keys 0..5, value types INT,BIGINT,VARCHAR,VARBINARY,DECIMAL,DATE,DATETIME(6),JSON,TEXT with NULLs, quotes, backslashes, NUL bytes) with tags and branches created, moved, deleted/re-created and checked out between commits; the harness records a model of every table at every commit and afterwards (and for a drawn earlier commit after every commit) reads every commit x every table name of the pool through AS OF 'hash' / 'branch' / 'tag' / 'HEAD~n' / 'branch~n' / 'tag~n', `db/hash`.t, `db/branch`.t, USE `db/<hash|tag|branch>` + SELECT/SHOW TABLES, and dolt_history_<t> (filtered to the commit, projected, and unfiltered) and compares column names and the multiset of rows with the model; a table absent at the commit must give error 1146 (or no history rows). Non-trivial: the history has a commit at which some table that exists at the final HEAD is absent or has a different column list/type, and some table name is present at one commit and absent at a later one; distinct by the operation sequence."
+const c33Rule = "rapid-generated histories of 2..6 commits (0..5 working-set operations each: CREATE/DROP/RENAME TABLE over a pool of 3 names, ADD (FIRST/AFTER/last, with/without DEFAULT)/DROP/RENAME/MODIFY COLUMN over a pool of 5 column names, INSERT/UPDATE/DELETE over primary keys 0..5, value types INT,BIGINT,VARCHAR,VARBINARY,DECIMAL,DATE,DATETIME(6),JSON,TEXT with NULLs, quotes, backslashes, NUL bytes) with tags and branches created, moved, deleted/re-created and checked out between commits; the harness records a model of every table at every commit and afterwards (and for a drawn earlier commit after every commit) reads every commit x every table name of the pool through AS OF 'hash' / 'branch' / 'tag' / 'HEAD~n' / 'branch~n' / 'tag~n', `db/hash`.t, `db/branch`.t, USE `db/<hash|tag|branch>` + SELECT/SHOW TABLES, and dolt_history_<t> (filtered to the commit, projected, and unfiltered) and compares column names and the multiset of rows with the model; a table absent at the commit must give error 1146 (or no history rows). Also AS OF 'hash' with an equality filter on the key and on integer columns indexed at the commit or at HEAD. Non-trivial: some commit other than the empty initial one differs from the writer's final HEAD in the presence of a table name or in that table's column list/types (so reading it with HEAD's schema or HEAD's table set would be wrong); distinct by the operation sequence."
 
 type c33Stats struct {
 	reads    int
@@ -189,6 +189,57 @@ func (c *c33Checker) history(name string, ci int) {
 	}
 }
 
+// filtered reads the table AS OF the commit with an equality predicate on its first key
+// column and on every integer column that carries a secondary index at the commit or in the
+// writer's working set (so an index chosen from the wrong schema would show).
+func (c *c33Checker) filtered(name string, ci int) {
+	h := c.h
+	want := h.Commits[ci].State[name]
+	if want == nil {
+		return
+	}
+	indexed := map[string]bool{}
+	for _, col := range want.Idx {
+		indexed[col] = true
+	}
+	if cur := h.Work[name]; cur != nil {
+		for _, col := range cur.Idx {
+			indexed[col] = true
+		}
+	}
+	first := true
+	for i, col := range want.Cols {
+		if col.Kind != hkInt && col.Kind != hkBig {
+			continue
+		}
+		if !(col.PK && first) && !indexed[col.Name] {
+			continue
+		}
+		if col.PK {
+			first = false
+		}
+		// the value of the smallest-keyed row that has one, else a constant
+		val := "2"
+		for _, k := range want.keys() {
+			if v := want.Rows[k][i]; v != vsql.Null {
+				val = v
+				break
+			}
+		}
+		sub := &hTable{Cols: want.Cols, Rows: map[string][]string{}}
+		for k, r := range want.Rows {
+			if r[i] == val {
+				sub.Rows[k] = r
+			}
+		}
+		form := "asof_filtered_pk"
+		if !col.PK {
+			form = "asof_filtered_indexed"
+		}
+		c.expect(c.r, form, fmt.Sprintf("SELECT * FROM `%s` AS OF '%s' WHERE `%s` = %s", name, h.Commits[ci].Hash, col.Name, val), sub, ci)
+	}
+}
+
 func (c *c33Checker) schemaAt(ci int, name string) string {
 	if t := c.h.Commits[ci].State[name]; t != nil {
 		return t.schemaString()
@@ -287,6 +338,7 @@ func (c *c33Checker) verifyCommit(ci int, full bool) {
 		if full {
 			c.expect(c.r, "asof_hash", fmt.Sprintf("SELECT * FROM `%s` AS OF '%s'", name, cm.Hash), want, ci)
 			c.expect(h.w, "db/hash", fmt.Sprintf("SELECT * FROM `%s/%s`.`%s`", h.db, cm.Hash, name), want, ci)
+			c.filtered(name, ci)
 		}
 		for _, b := range branches {
 			c.expect(c.r, "asof_branch", fmt.Sprintf("SELECT * FROM `%s` AS OF '%s'", name, b), want, ci)
@@ -382,7 +434,7 @@ func TestVerif_C33(t *testing.T) {
 	defer srv.Stop()
 	admin := srv.Session(t, "admin", "")
 	defer admin.Close()
-	vh.Check(t, "history", 110, 260, func(rt *rapid.T) {
+	vh.Check(t, "history", 150, 260, func(rt *rapid.T) {
 		db := srv.NewDBName()
 		admin.MustExec(rt, "CREATE DATABASE "+db)
 		defer admin.Exec("DROP DATABASE " + db)
@@ -395,7 +447,7 @@ func TestVerif_C33(t *testing.T) {
 			maxCommits = 7
 		}
 		h := newHist(rt, srv, db, w, hConfig{Types: hAllTypes, TablePool: []string{"t0", "t1", "t2"}, ColPool: []string{"c0", "c1", "c2", "c3", "c4"},
-			MaxCommits: maxCommits, MaxEdits: 5, Branches: true, Indexes: true, ColPositions: true, StrPK: true})
+			MaxCommits: maxCommits, MaxEdits: 5, Branches: true, Indexes: true, ColPositions: true, StrPK: true, DDLBoost: 2})
 		st := &c33Stats{forms: map[string]int{}}
 		chk := &c33Checker{rt: rt, h: h, r: r, st: st}
 		h.AfterCommit = func(h *hHist, ci int) {
@@ -419,21 +471,14 @@ func TestVerif_C33(t *testing.T) {
 			chk.verifyAll()
 		}
 		// non-trivial rule
+		// (commit 0, the empty initial commit, does not count)
 		final := h.Commits[h.head()].State
-		differs, vanishes := false, false
-		for _, cm := range h.Commits {
-			for name, ft := range final {
-				if ot := cm.State[name]; ot == nil || ot.schemaString() != ft.schemaString() {
-					differs = true
-				}
-			}
-		}
-		for ci, cm := range h.Commits {
-			for name := range cm.State {
-				for cj := ci + 1; cj < len(h.Commits); cj++ {
-					if h.Commits[cj].State[name] == nil {
-						vanishes = true
-					}
+		nontrivial := false
+		for _, cm := range h.Commits[1:] {
+			for _, name := range h.cfg.TablePool {
+				ot, ft := cm.State[name], final[name]
+				if (ot == nil) != (ft == nil) || (ot != nil && ot.schemaString() != ft.schemaString()) {
+					nontrivial = true
 				}
 			}
 		}
@@ -449,6 +494,6 @@ func TestVerif_C33(t *testing.T) {
 		}
 		sort.Strings(classes)
 		rec.Evals(st.reads)
-		rec.Case(strings.Join(h.Ops, " ; "), differs && vanishes, classes...)
+		rec.Case(strings.Join(h.Ops, " ; "), nontrivial, classes...)
 	})
 }
